@@ -13,7 +13,7 @@ From WM Require Import Base.Prelude Message.Model Handler.RouterHandle Handler.R
      GoChannel.Reg GoChannel.RegSend GoChannel.Sub GoChannel.SubProofs
      Pipeline.TopicModel Pipeline.TopicRefine
      Pipeline.Model Pipeline.Proofs Pipeline.Final Pipeline.SubLink Pipeline.ImmModel Pipeline.ImmProofs Pipeline.CtxModel Pipeline.CtxProofs GoChannel.SubCtx
-     Corr.C01 Pipeline.Example.
+     Corr.C01 Pipeline.Example Pipeline.ProductModel Pipeline.ProductProofs Pipeline.ProductExample.
 
 Section C01.
   Context {M : Type}.
@@ -171,6 +171,66 @@ Proof. exact sc_ctx_live. Qed.
 Theorem C01_dead_contexts_never_stop : forall k cl sc s, s < k ->
   (forall B, exists c, B <= c /\ cl s c = false) -> ~ eventually_clean k (sc_ctx cl sc).
 Proof. exact dead_contexts_never_clean. Qed.
+
+(** ** the PRODUCT (Pipeline/ProductModel.v): k GoChannel topics, each the composition registry x
+    send loop with one always-registered subscription and started from a fresh GoChannel, the final
+    topic, the source publisher, and one Router step ([rt_handle]) per delivered copy.  Every run
+    of this composition maps to a run of the abstract pipeline model (forward simulation [XR]: the
+    pending publications of every GoChannel topic, as messages, plus the unpublished sources are a
+    permutation of the abstract topic; same final topic up to order, same call counters, same log of
+    Router steps), so the safety theorems hold of the composition *)
+Section C01_product.
+  Context {M : Type}.
+  Variable hf : nat -> M -> list M.
+  Variable eqbM : M -> M -> bool.
+  Hypothesis eqbM_spec : forall a b, eqbM a b = true <-> a = b.
+  Variables (x : Reg.subid) (k : nat) (sc : script) (srcs : list M) (dflt : M).
+  Hypothesis k_pos : 0 < k.
+  Variables (pers blk fx : bool) (cap0 : nat) (sfx : bool).
+  Notation fresh := (xinit (fun _ => cinit pers blk fx cap0 sfx) dflt).
+  Notation xrun_ ls := (xrun hf x k sc srcs fresh ls).
+
+  Theorem C01_product_refines : forall ls,
+    exists pls, XR x k srcs (xrun_ ls) (prun hf eqbM rt_handle k sc (pinit srcs) pls).
+  Proof. exact (fresh_product_refines hf eqbM eqbM_spec x k sc srcs dflt k_pos pers blk fx cap0 sfx). Qed.
+
+  Theorem C01_product_nothing_invented : forall ls y,
+    In y (xsink (xrun_ ls)) -> In y (expected_sink hf k srcs).
+  Proof. exact (fresh_product_nothing_invented hf eqbM eqbM_spec x k sc srcs dflt k_pos pers blk fx cap0 sfx). Qed.
+
+  Theorem C01_product_ack_only_after_next_accepted : forall ls,
+    log_ok hf eqbM (xlog (xrun_ ls)) = true
+    /\ forall d, In d (xlog (xrun_ ls)) ->
+         (d_final d = Acked -> d_fwd d = hf (d_stage d) (d_msg d)
+                               /\ ack_after_publish (d_tr d) false = true)
+         /\ (d_final d = Acked \/ d_final d = Nacked).
+  Proof. exact (fresh_product_ack_only_after_next_accepted hf eqbM eqbM_spec x k sc srcs dflt k_pos pers blk fx cap0 sfx). Qed.
+
+  Theorem C01_product_never_lost : forall ls y, In y (expected_sink hf k srcs) ->
+    In y (xsink (xrun_ ls))
+    \/ exists t m, t < k /\ In m (xpending x (xrun_ ls) t ++ extra srcs (xrun_ ls) t)
+                   /\ In y (desc hf (k - t) t m).
+  Proof. exact (fresh_product_never_lost hf eqbM eqbM_spec x k sc srcs dflt k_pos pers blk fx cap0 sfx). Qed.
+
+  (** liveness, PARTIAL: finitely many Router steps in every run of the composition, whatever
+      happens in between; missing: finiteness of the steps between two Router steps (finite
+      environment + a progress measure for the composed topic while it is not closing) *)
+  Theorem C01_product_router_steps_finite_partial : forall ls, eventually_clean k sc ->
+    Acc (hsucc hf x k sc srcs) (xrun_ ls).
+  Proof. exact (fresh_product_router_steps_finite_partial hf eqbM eqbM_spec x k sc srcs dflt k_pos pers blk fx cap0 sfx). Qed.
+End C01_product.
+Print Assumptions C01_product_refines.
+Print Assumptions C01_product_nothing_invented.
+Print Assumptions C01_product_ack_only_after_next_accepted.
+Print Assumptions C01_product_never_lost.
+Print Assumptions C01_product_router_steps_finite_partial.
+
+(** non-vacuity of the product: registration, Publish, hand-over, Nack, redelivery, Ack *)
+Example C01_product_witness :
+  xsink px_run = [(3%N, [0%N]); (3%N, [1%N])]
+  /\ map (fun d => (d_call d, d_final d)) (xlog px_run) = [(0, Nacked); (1, Acked)]
+  /\ abs 0 (xtop px_run 0) = [] /\ xnsrc px_run = 1.
+Proof. exact product_witness. Qed.
 
 (** the fairness hypothesis is satisfiable: every finite script has it *)
 Theorem C01_finite_scripts_are_fair : forall k (l : list (list fault)), eventually_clean k (sc_of l).
